@@ -20,7 +20,7 @@ from concurrent.futures import ThreadPoolExecutor
 
 ROOT = os.path.dirname(os.path.abspath(__file__))
 REPO = os.environ.get("VERIF_REPO", "/repo")
-BUILD = os.path.join(ROOT, "build")
+BUILD = os.path.join(ROOT, "build") if os.path.realpath(REPO) == "/repo" else os.path.join(ROOT, "build", "scratch_" + re.sub(r"\W", "_", os.path.realpath(REPO)))  # scratch-copy runs never share files with runs on /repo
 VX = os.path.join(ROOT, "vx", "target", "release", "vx")
 VERUS_FLAGS = ["--edition", "2024", "--triggers-mode", "silent", "--output-json", "--time",
                "--error-format=json", "--multiple-errors", "200"]
